@@ -373,7 +373,12 @@ class _TmpWrap:
         return self
 
     def __exit__(self, *a):
+        _emit("tclose", self._tmp.name)          # the buffered tail reaches the disk here
         return self._tmp.__exit__(*a)
+
+    def close(self):
+        _emit("tclose", self._tmp.name)
+        return self._tmp.close()
 
     def write(self, data):
         _emit("write", self._tmp.name, len(data))
